@@ -3,6 +3,7 @@ use crate::Check;
 pub mod c02;
 pub mod c04;
 pub mod c05;
+pub mod c07;
 pub mod c08;
 pub mod c09;
 pub mod c10;
@@ -24,6 +25,7 @@ pub fn get(id: &str) -> Option<Box<dyn Check>> {
         "C10" => Some(Box::new(c10::C10)),
         "C13" => Some(Box::new(c13::C13)),
         "C08" => Some(Box::new(c08::C08)),
+        "C07" => Some(Box::new(c07::C07)),
         "C05" => Some(Box::new(c05::C05)),
         _ => None,
     }
